@@ -12,6 +12,8 @@ import ZV.Proofs.C23Bytes
   * `pkcs1_verify_iff`, `pkcs1_verify_numeric`, `pkcs1_unique`, `pkcs1_digest_binding`:
     the decision logic of `VerifyPKCS1v15`, for all inputs.
   * `malformed_pub_is_error`: no public operation succeeds or panics on a malformed public key.
+  * `stripTo_zeros`, `stripTo_nonzero_head`, `verifyPSS_leading_octet`: `VerifyPSS` drops octets of `s^e mod n` above
+    the `emLen = ⌈(modBits-1)/8⌉` octets of the encoded message only if they are zero (moduli of 8k+1 bits).
   * `hashPrefixes_wellformed` (T1): every row of the generated DigestInfo table is a DER header whose
     length bytes agree with the digest size `crypto.Hash.Size()` reports.
 -/
@@ -250,4 +252,67 @@ example : KeyOk toyKey where
 example : Malformed ⟨some 0, some 65537⟩ := Or.inr (Or.inl ⟨0, rfl, by decide⟩)
 example : Malformed ⟨some 143, none⟩ := Or.inr (Or.inr (Or.inl rfl))
 
+/-! ### RSASSA-PSS: the octets above the encoded message (modulus bit length = 1 mod 8, `emLen = k-1`) -/
+
+/-- The leading-octet stripping loop of `VerifyPSS` (modulus of 8k+1 bits: `emLen = k-1`) only ever removes ZERO octets,
+    and removes exactly as many as needed: if it succeeds, the input was `0…0 ++ em'` with `em'` the last
+    `min em.length emLen` octets.  (Replacing the loop by a plain slice to `emLen` — dropping a non-zero leading octet of
+    `s^e mod n` unchecked — falsifies this.) -/
+theorem stripTo_zeros (emLen : Nat) (em em' : Bytes) (h : stripTo emLen em = some em') :
+    em = List.replicate (em.length - em'.length) 0 ++ em' ∧ em'.length = min em.length emLen := by
+  induction em with
+  | nil =>
+    simp [stripTo] at h
+    subst h
+    simp
+  | cons b rest ih =>
+    unfold stripTo at h
+    split at h
+    · next hlen =>
+      split at h
+      · simp at h
+      · next hb =>
+        have hb0 : b = 0 := by simpa using hb
+        obtain ⟨h1, h2⟩ := ih h
+        have hle : em'.length ≤ rest.length := by rw [h2]; exact Nat.min_le_left _ _
+        have hlen' : emLen ≤ rest.length := by simp at hlen; omega
+        refine ⟨?_, ?_⟩
+        · have : (b :: rest).length - em'.length = (rest.length - em'.length) + 1 := by simp; omega
+          rw [this, List.replicate_succ, hb0]
+          simp only [List.cons_append]
+          rw [← h1]
+        · rw [h2]; simp; omega
+    · next hlen =>
+      simp at h
+      subst h
+      simp at hlen ⊢
+      omega
+
+/-- a non-zero octet in front of more than `emLen` octets is rejected -/
+theorem stripTo_nonzero_head (emLen : Nat) (b : UInt8) (rest : Bytes) (hb : b ≠ 0) (hl : emLen ≤ rest.length) :
+    stripTo emLen (b :: rest) = none := by
+  unfold stripTo
+  have : emLen < rest.length + 1 := by omega
+  simp [this, hb]
+
+/-- hence `VerifyPSS` rejects whenever `s^e mod n`, written on `k` octets, starts with a non-zero octet that lies above the
+    `emLen` octets of the encoded message (`emLen < k`, i.e. modulus bit length = 1 mod 8) -/
+theorem verifyPSS_leading_octet {pub : Pub} {h : HashAlg} {dg sig : Bytes} {sl : Int} {n e : Nat} {b : UInt8} {rest : Bytes}
+    (hp : checkPub pub = .ok (n, e)) (henc : encrypt n e sig = .ok (b :: rest)) (hb : b ≠ 0)
+    (hl : (bitLen n - 1 + 7) / 8 ≤ rest.length) :
+    verifyPSS pub h dg sig sl ≠ .ok () := by
+  unfold verifyPSS
+  rw [hp]
+  simp only
+  split
+  · simp
+  · split
+    · simp
+    · rw [henc]
+      simp only
+      rw [stripTo_nonzero_head _ b rest hb hl]
+      simp
+
+example : stripTo 2 [0, 0, 5, 6] = some [5, 6] := by decide
+example : stripTo 2 [1, 5, 6] = none := by decide
 end ZV.C23
